@@ -49,7 +49,7 @@ PROPS = {
                      'in fresh processes are bit-identical',
                      'interference inside one loop iteration (two real threads at the same instant) is below the resolution of the simulated '
                      'scheduler; real-OpenMP runs cover it by outcome only'],
-        quick=dict(runs=260, budget_s=150),
+        quick=dict(runs=420, budget_s=150),
         thorough=dict(runs=60000, budget_s=2400),
     ),
 }
